@@ -1,5 +1,12 @@
 package yqlib
 
+import "container/list"
+
 func selfOperator(_ *dataTreeNavigator, context Context, _ *ExpressionNode) (Context, error) {
-	return context, nil
+	// hand out a fresh list: union compares the lists of its two operands by
+	// identity to detect "both sides updated the context in place", and
+	// `., .` must not look like that
+	result := list.New()
+	result.PushBackList(context.MatchingNodes)
+	return context.ChildContext(result), nil
 }
